@@ -107,7 +107,7 @@ func (g *G) Ws() string {
 	var b strings.Builder
 	n := g.R.Range(1, 3)
 	for i := 0; i < n; i++ {
-		b.WriteString(g.pick(" ", " ", " ", "\t", "\n", "\r\n", "\r", "\f"))
+		b.WriteString(g.pick(" ", " ", "\t", "\n", "\n", "\r\n", "\r", "\f", "\n\n", "\n \n  ", "\r\n\r\n ", "\n\t\n"))
 	}
 	return b.String()
 }
@@ -122,7 +122,7 @@ func (g *G) stringBody(quote string) string {
 		case 1:
 			b.WriteString("\\\n")
 		case 2:
-			b.WriteString("\\\r\n")
+			b.WriteString(g.pick("\\\r\n", "\\\n\\\n", "\\\r\n x\\\n", "\\\f\\\r"))
 		case 3:
 			b.WriteString(`\` + quote)
 		case 4:
@@ -188,7 +188,8 @@ func (g *G) optWs() string {
 }
 
 func (g *G) Comment() string {
-	return "/*" + g.pick("", " c ", "*", "**", "/", "* /", "/*", "a\nb", "\r\n", "é", `"`, "'", "}", ")", "url(", `\`) + "*/"
+	return "/*" + g.pick("", " c ", "*", "**", "/", "* /", "/*", "a\nb", "\r\n", "é", `"`, "'", "}", ")", "url(", `\`,
+		"a\nb\nc", "\n\n", "x\r\ny\r\n z", "l1\n\nl3 é\n", "\f\r*\n") + "*/"
 }
 
 var delims = []string{
